@@ -153,7 +153,7 @@ fn answer(view: &SourceView, want: &[&str], r: &Req, obs: &mut Obs) -> Result<()
             // bounded: more than n items is already wrong
             let got = guard(|| view.lines().take(n + 2).collect::<Vec<&str>>())?;
             if got == want && n <= 64 {
-                crate::props::common::iter_conformance("lines()", || view.lines(), want)?;
+                crate::props::common::iter_conformance("lines()", || view.lines(), |l| l, want)?;
             }
             if got != want {
                 let i = got.iter().zip(want).position(|(a, b)| a != b).unwrap_or(got.len().min(n));
